@@ -1,9 +1,12 @@
 #!/bin/sh
 # try_seed.sh <patch.diff> <ID>... : apply a seeded change to /repo, run the checks, undo it.
+# The evidence files of the clean tree are preserved (a run on a seeded tree must not be committed).
 P="$1"; shift
 git -C /repo apply "$P" || { echo "patch does not apply"; exit 2; }
 for id in "$@"; do
+  cp /verif/evidence/$id.json /var/tmp/evidence_$id.bak 2>/dev/null
   /verif/check "$id" > /var/tmp/try_seed.out 2>/var/tmp/try_seed.err; rc=$?
   echo "== $id exit=$rc: $(grep -E 'VIOLATION|KNOWN|ERROR' /var/tmp/try_seed.out | head -3)"
+  cp /var/tmp/evidence_$id.bak /verif/evidence/$id.json 2>/dev/null
 done
 git -C /repo checkout -- . ; python3 /verif/tools/translate.py >/dev/null
